@@ -840,6 +840,8 @@ def run(ctx, br):
     finally:
         shutil.rmtree(lab_root, ignore_errors=True)
 
+    # replays that name a failing input first (only the first 20 are written)
+    ctx.violations.sort(key=lambda v: bool(v["replay"].get("no_failing_input_found")))
     ctx.assumptions += [
         "strings are ASCII (identifiers of the IDL grammar); unicode.ToUpper/ToLower modelled on ASCII only",
         "valid programs come from a generator that avoids target-language reserved words, names consisting only of underscores, "
